@@ -130,3 +130,23 @@ MUTANTS += [
     {"name": "c15-redis-window-offset-stuck", "checks": ["C15"],
      "edits": [(RC, "                offset -= self.PREFETCH_AMOUNT  # reversed offset", "                offset -= 0  # reversed offset")]},
 ]
+RU = "repid/connections/redis/utils.py"
+MUTANTS += [
+    {"name": "c07-encoder-drops-microseconds", "checks": ["C07"],
+     "edits": [("repid/_utils/json_encoder.py", "            return obj.total_seconds()", "            return float(int(obj.total_seconds()))")]},
+    {"name": "c07-redis-name-dash-separator", "checks": ["C07"],
+     "edits": [(RU, '    return f"{prefix}{key.topic}:{key.id_}"', '    return f"{prefix}{key.topic}-{key.id_}"'),
+               (RU, '    topic, id_ = short_name.split(":")', '    topic, id_ = short_name.split("-", 1)')]},
+    {"name": "c07-amqp-queue-header-ignored", "checks": ["C07"],
+     "edits": [(AC, '            msg_queue = message.header.properties.headers.get("queue", "default")', '            msg_queue = message.header.properties.headers.get("queue_name", "default")')]},
+    {"name": "c07-bucket-marker-check-offset", "checks": ["C07"],
+     "edits": [("repid/_utils/args_bucket_in_message_id.py", "        return string.find(cls.KEY, 0, len(cls.KEY) + 3) != -1", "        return string.find(cls.KEY, 0, len(cls.KEY) + 1) != -1")]},
+    {"name": "c07-datetime-decode-drops-tz", "checks": ["C07"],
+     "edits": [(PA, '            elif key == "timestamp":\n                loaded[key] = datetime.fromisoformat(value)', '            elif key == "timestamp":\n                loaded[key] = datetime.fromisoformat(value).replace(tzinfo=None)')]},
+    {"name": "c07-job-ttl-not-propagated", "checks": ["C07"],
+     "edits": [("repid/job.py", "            timestamp=self.timestamp,\n            ttl=self.ttl,", "            timestamp=self.timestamp,\n            ttl=None,")]},
+    {"name": "c07-amqp-priority-zero-as-medium", "checks": ["C07"],
+     "edits": [(AC, "                        if message.header.properties.priority is not None\n", "                        if message.header.properties.priority\n")]},
+    {"name": "c07-redis-topic-prefix-without-colon", "checks": ["C07", "C11"],
+     "edits": [(RC, '        new_topics = tuple(x + ":" for x in topics)', '        new_topics = tuple(x for x in topics)')]},
+]
